@@ -186,12 +186,14 @@ def factory(key):
 def plan(ctx):
     jobs = []
     if ctx.thorough:
-        for kind in ("future", "sync"):
-            jobs.append((("from_periodic", kind, 5, 0, 2.0), 1))
-            jobs.append((("from_iterable", kind, 5, 4, 0.5), 1))
-            jobs.append((("from_textfile", kind, 5, 3, 1.5), 1))
-        jobs.append((("from_periodic", "future", 4, 0, 2.0), 2))
-        jobs.append((("from_iterable", "future", 4, 3, 0.5), 2))
+        jobs.append((("from_periodic", "future", 5, 0, 1.5), 0))
+        jobs.append((("from_periodic", "future", 4, 0, 2.0), 1))
+        jobs.append((("from_iterable", "future", 5, 3, 0.5), 0))
+        jobs.append((("from_iterable", "future", 4, 4, 0.5), 1))
+        jobs.append((("from_textfile", "future", 4, 3, 1.0), 0))
+        jobs.append((("from_textfile", "future", 4, 2, 0.5), 1))
+        for src, n, h in (("from_periodic", 0, 2.0), ("from_iterable", 4, 0.5), ("from_textfile", 3, 1.5)):
+            jobs.append(((src, "sync", 5, n, h), 1))
     else:
         jobs.append((("from_periodic", "future", 4, 0, 1.5), 1))
         jobs.append((("from_iterable", "future", 4, 3, 0.5), 1))
